@@ -37,7 +37,7 @@ ASSUMPTIONS = [
 ]
 REQUIRE = {
     "kernels_seen": 50, "kernel_calls_checked": 300, "legal_aliasings_observed": 5, "thread_differentials": 40,
-    "shadow_calls": 100, "numba_dispatchers_checked": 8, "stacked_spread_repeats": 20,
+    "shadow_calls": 100, "numba_dispatchers_checked": 8, "stacked_spread_repeats": 20, "interaction_evaluations": 12,
 }
 SHARD_TIMEOUT = {"quick": 1200, "thorough": 3000}
 
@@ -57,6 +57,8 @@ def shards(tier, seed):
         out.append({"name": f"sim{i}", "mode": "sim", "cfgs": cfgs[i::m]})
     out.append({"name": "solvers", "mode": "solvers"})
     out.append({"name": "numba", "mode": "numba"})
+    out.append({"name": "interaction2d", "mode": "interaction", "dim": 2})
+    out.append({"name": "interaction3d", "mode": "interaction", "dim": 3})
     if tier == "thorough":
         # the repository's own ~740 tests as an extra workload for M1/M2 and the runtime contracts
         out.append({"name": "repotests", "mode": "repotests", "timeout": 3300})
@@ -297,7 +299,51 @@ def _run_repotests(sh, rec):
         rec.case(("repo-test-suite",), sample={"pytest": tail, "kernel_calls": calls, "contract_evaluations": evals})
 
 
+def _run_interaction(sh, rec):
+    """real virtual-boundary interaction objects (configurations of C10) under M1/M2 + shadow execution; their numba
+    dispatchers must be serial; repeated evaluation of the same state gives identical bytes"""
+    from .. import bodies
+
+    kernelspy.SHADOW["on"] = True
+    d = sh["dim"]
+    rng = util.rng_for(sh["seed"], "C15ix", d)
+    N = bodies.IX_POOL[d]["N"] if not isinstance(bodies.IX_POOL[d]["N"], tuple) else bodies.IX_POOL[d]["N"][0]
+    kinds = bodies.ix_kinds(d, N)
+    for j, kind in enumerate(kinds):
+        for reset in (False, True):
+            real_t = np.float64 if (j + reset) % 2 == 0 else np.float32
+            try:
+                case = bodies.make_interaction_case(rng, kind, N, reset=reset, real_t=real_t)
+            except Exception as e:
+                rec.note(f"interaction case {kind} not built: {type(e).__name__}: {e}")
+                continue
+            it = case.it
+            comm = it.eul_lag_grid_communicator
+            for nm in ("local_eulerian_grid_support_of_lagrangian_grid_kernel", "eulerian_to_lagrangian_grid_interpolation_kernel",
+                       "lagrangian_to_eulerian_grid_interpolation_kernel", "interpolation_weights_kernel"):
+                to = getattr(getattr(comm, nm), "targetoptions", None)
+                rec.count("numba_dispatchers_checked")
+                if to is not None and to.get("parallel"):
+                    rec.violation(f"numba-parallel:{nm}", f"{nm} of a {kind} interaction is compiled with parallel=True", {"kind": kind})
+            outs = []
+            for rep in range(3):
+                case.eul_force[...] = 0
+                it()
+                it.compute_flow_forces_and_torques()
+                outs.append((np.array(case.eul_force, copy=True), np.array(it.lag_grid_forcing_field, copy=True), np.array(it.body_flow_forces, copy=True)))
+                rec.count("interaction_evaluations")
+            same = all(util.bits_equal(a, b) for o in outs[1:] for a, b in zip(outs[0], o))
+            if not same:
+                rec.violation("interaction-run-dependent", f"three evaluations of the same state give different bytes ({kind}, reset={reset}, {real_t.__name__})", {"kind": kind})
+            it.time_step(dt=1e-3)
+            rec.case(("interaction", kind, reset, real_t.__name__), sample={"kind": kind, "markers": N, "reset": reset, "dtype": real_t.__name__, "bitwise_repeatable": same})
+
+
 def run_shard(sh, rec):
+    if sh["mode"] == "interaction":
+        kernelspy.install()
+        _run_interaction(sh, rec)
+        return _flush_spy(rec)
     if sh["mode"] == "repotests":
         return _run_repotests(sh, rec)
     kernelspy.install()
